@@ -100,6 +100,17 @@ def discharge(ob, axioms, timeout_ms, model=None):
         if s2.check() == z3.unsat:
             from .smt import Verdict
             v = Verdict("unsat", "z3-ematch", v.seconds + time.time() - t0)
+    if v.status == "unknown" and not (model is not None and hasattr(model, "quantified_axioms")):
+        # quantifier-heavy goals: E-matching alone (no model-based instantiation) often closes what the default strategy wanders on
+        t0 = time.time()
+        s3 = z3.Solver()
+        s3.set("smt.mbqi", False)
+        s3.set(timeout=min(int(timeout_ms), 8000))
+        for f in fs:
+            s3.add(f)
+        if s3.check() == z3.unsat:
+            from .smt import Verdict
+            v = Verdict("unsat", "z3-ematch", v.seconds + time.time() - t0)
     status = {"unsat": "discharged", "sat": "open", "unknown": "unknown"}[v.status]
     return Result(ob.name, status, v.backend, v.seconds, ob.kind,
                   detail=(model_summary(v.model) if v.status == "sat" else v.reason), model=v.model)
